@@ -32,7 +32,7 @@ TEXT = {
         "technique": "model-based stateful property testing (rapid state machine) through the protocol against a reference account map; login attempts, list-users, directory contents and a fresh manager as views",
         "level_text": "Generated histories of account edits through all four editing requests, with restarts; after every step the three views the property names (who can log in, what administrators see, what is on disk) are compared with one model. Sampled histories, bounded length (~30 steps).",
         "design_ref": "DESIGN.md section 2, C15",
-        "level_note": "Trusted base: hlref, hlsim, rapid, synctest; bcrypt at MinCost as shipped. One known finding (names with a leading newline, yaml.v3) is excluded from the generator and decided by its own test.",
+        "level_note": "Trusted base: hlref, hlsim, rapid, synctest; bcrypt at MinCost as shipped.",
     },
     "C05": {
         "engine": "E1 bubble world",
@@ -88,7 +88,7 @@ TEXT = {
         "technique": "model-based stateful property testing (rapid state machine) through the protocol against a reference news tree, with strict reference decoding of list encodings and reload of the persisted file",
         "level_text": "Generated histories of create / post / reply / delete / reload; after every step the complete observable news tree (article lists, each article, category listings at every path) is compared with the model, so lost or altered articles, wrong links, unparseable list encodings and fields lost on reload are all visible.",
         "design_ref": "DESIGN.md section 2, C18",
-        "level_note": "Trusted base: hlref news decoders, hlsim, rapid. Histories ~30 steps, depth <= 3, bodies <= 60000 bytes.",
+        "level_note": "Trusted base: hlref news decoders, hlsim, rapid. Histories ~30 steps, depth <= 3, bodies <= 60000 bytes. One known finding (category/bundle names yaml.v3 cannot write back as mapping keys) is outside the name pool and decided by its own test.",
     },
     "C12": {
         "engine": "E1 bubble world",
